@@ -28,7 +28,7 @@ func c01Event(t *rapid.T) (*mocrelay.Event, gen.Key) {
 	nt := rapid.IntRange(0, 6).Draw(t, "ntags")
 	e.Tags = []mocrelay.Tag{}
 	for i := 0; i < nt; i++ {
-		ne := rapid.IntRange(1, 4).Draw(t, fmt.Sprintf("t%dn", i))
+		ne := rapid.IntRange(0, 4).Draw(t, fmt.Sprintf("t%dn", i)) // a tag without elements is a tag shape too
 		tag := mocrelay.Tag{}
 		for j := 0; j < ne; j++ {
 			var s string
@@ -233,9 +233,11 @@ func TestC01Authenticity(t *testing.T) {
 		if len(e.Tags) > 0 {
 			ti := rapid.IntRange(0, len(e.Tags)-1).Draw(t, "ati")
 			add("tag-removed", func(x *mocrelay.Event) { x.Tags = append(x.Tags[:ti:ti], x.Tags[ti+1:]...) })
-			ei := rapid.IntRange(0, len(e.Tags[ti])-1).Draw(t, "aei")
-			nv := mutateString(t, "ae.", e.Tags[ti][ei])
-			add("tag-element", func(x *mocrelay.Event) { x.Tags[ti][ei] = nv })
+			if len(e.Tags[ti]) > 0 {
+				ei := rapid.IntRange(0, len(e.Tags[ti])-1).Draw(t, "aei")
+				nv := mutateString(t, "ae.", e.Tags[ti][ei])
+				add("tag-element", func(x *mocrelay.Event) { x.Tags[ti][ei] = nv })
+			}
 			add("tag-element-appended", func(x *mocrelay.Event) { x.Tags[ti] = append(x.Tags[ti], "") })
 			if len(e.Tags) > 1 {
 				tj := (ti + 1) % len(e.Tags)
